@@ -109,6 +109,27 @@ Qed.
 Definition lift_unpack (r : res (item * nat)) (w : W) : @fres E :=
   match r with Ok (it, n) => FRet (PTuple [PInt (Z.of_nat n); obj_of it]) w | Raise e => FRaise e w end.
 
+Lemma unpack_unsigned_nonneg w bs z : unpack_int false w bs = Ok z -> (0 <= z)%Z.
+Proof.
+  unfold unpack_int. destruct (Nat.eqb (length bs) w); cbn [negb andb]; [|discriminate]. intros H. inversion H. lia.
+Qed.
+
+(* closed comparisons of integer literals, whatever `simpl never` says; comparisons that mention a variable are split, the
+   impossible sides closed by arithmetic *)
+Ltac is_lit a := lazymatch a with Z0 => idtac | Zpos _ => idtac | Zneg _ => idtac end.
+Ltac eval_closed_cmp :=
+  repeat match goal with
+  | |- context [(?a =? ?b)%Z] => is_lit a; is_lit b; let v := eval vm_compute in (a =? b)%Z in change ((a =? b)%Z) with v
+  | |- context [(?a <? ?b)%Z] => is_lit a; is_lit b; let v := eval vm_compute in (a <? b)%Z in change ((a <? b)%Z) with v
+  | |- context [(?a <=? ?b)%Z] => is_lit a; is_lit b; let v := eval vm_compute in (a <=? b)%Z in change ((a <=? b)%Z) with v
+  end.
+Ltac split_cmp :=
+  repeat match goal with
+  | |- context [(?a =? ?b)%Z] => first [is_var a | is_var b]; let H := fresh "Hc" in destruct (a =? b)%Z eqn:H; try lia
+  | |- context [(?a <? ?b)%Z] => first [is_var a | is_var b]; let H := fresh "Hc" in destruct (a <? b)%Z eqn:H; try lia
+  | |- context [(?a <=? ?b)%Z] => first [is_var a | is_var b]; let H := fresh "Hc" in destruct (a <=? b)%Z eqn:H; try lia
+  end.
+
 Lemma bridge_unpack_value fuel g i b s (v0 : pyval) d (w : W) :
   gc_unpack_value (E := E) fuel (obj5 (PInt g) (PInt i) (PInt b) (PBool s) v0) (PBytes d) w
   = match unpack_value b s d with
@@ -116,20 +137,24 @@ Lemma bridge_unpack_value fuel g i b s (v0 : pyval) d (w : W) :
     | Raise e => FRaise e w
     end.
 Proof.
-  unfold gc_unpack_value, obj_of, obj5, unpack_value. py_unfold. cbn.
-  unfold bytes_from_bits.
-  Ltac use_eqs := repeat match goal with H : (_ =? _)%Z = _ |- _ => rewrite !H end.
-  destruct (b =? 1)%Z eqn:E1.
-  { cbn. use_eqs. cbn. rewrite ?Nat2Z.id.
-    destruct (unpack_int false 1 (firstn 1 d)) as [z|e]; cbn; [|reflexivity].
-    destruct (z =? 0)%Z; cbn; [reflexivity|]. destruct (z =? 1)%Z; reflexivity. }
-  Ltac uv_case s := cbn; use_eqs; cbn; rewrite ?Nat2Z.id; destruct s; cbn;
-    (match goal with |- context [unpack_int ?sg ?w ?x] => destruct (unpack_int sg w x) as [z|e] end); reflexivity.
-  destruct (b =? 8)%Z eqn:E8; [uv_case s|].
-  destruct (b =? 16)%Z eqn:E16; [uv_case s|].
-  destruct (b =? 32)%Z eqn:E32; [uv_case s|].
-  destruct (b =? 64)%Z eqn:E64; [uv_case s|].
-  cbn. use_eqs. reflexivity.
+  unfold gc_unpack_value, obj_of, obj5, unpack_value. py_unfold.
+  Ltac uv_norm := repeat (progress (cbn; unfold bytes_from_bits; eval_closed_cmp; rewrite ?Nat2Z.id)).
+  Ltac uv_width s := uv_norm; destruct s; uv_norm;
+    match goal with |- context [unpack_int ?sg ?w ?x] => destruct (unpack_int sg w x) as [z|e] end; uv_norm; reflexivity.
+  (* the bit width: one of the five legal ones, or none of them - however the code tests them and shares the decoding *)
+  destruct (Z.eq_dec b 1) as [->|N1]; [|destruct (Z.eq_dec b 8) as [->|N8]; [|destruct (Z.eq_dec b 16) as [->|N16];
+    [|destruct (Z.eq_dec b 32) as [->|N32]; [|destruct (Z.eq_dec b 64) as [->|N64]]]]].
+  - uv_norm.
+    destruct (unpack_int false 1 (firstn 1 d)) as [z|e] eqn:Hu; uv_norm; [|reflexivity].
+    pose proof (unpack_unsigned_nonneg _ _ _ Hu) as Hz.
+    destruct (Z.eq_dec z 0) as [->|Z0]; [uv_norm; reflexivity|].
+    destruct (Z.eq_dec z 1) as [->|Z1]; [uv_norm; reflexivity|].
+    split_cmp; uv_norm; reflexivity.
+  - uv_width s.
+  - uv_width s.
+  - uv_width s.
+  - uv_width s.
+  - uv_norm. split_cmp; uv_norm; try reflexivity; destruct s; reflexivity.
 Qed.
 
 Lemma len_lt4 (d : bytes) : (Z.of_nat (length d) <? 4)%Z = Nat.ltb (length d) 4.
